@@ -30,6 +30,7 @@ import (
 	"net"
 	"net/http"
 	"net/http/httptest"
+	"net/url"
 	"runtime"
 	"strings"
 	"sync"
@@ -258,6 +259,7 @@ func c13Setup() *c13Env {
 	body := "google.api.HttpBody"
 	f := dynFile{Path: "verif/c13.proto", Pkg: "verif.c13", Services: []dynService{{Name: "Iso", Methods: []dynMethod{
 		{Name: "Echo", In: msg, Out: msg, Rule: &dynRule{Verb: "POST", Tmpl: "/c13/echo", Body: "*"}},
+		{Name: "ByPath", In: msg, Out: msg, Rule: &dynRule{Verb: "GET", Tmpl: "/c13/p/{user_id}/{text}"}},
 		{Name: "Down", In: msg, Out: msg, ServerStream: true, Rule: &dynRule{Verb: "POST", Tmpl: "/c13/down", Body: "*"}},
 		{Name: "Up", In: msg, Out: msg, ClientStream: true, Rule: &dynRule{Verb: "POST", Tmpl: "/c13/up", Body: "*"}},
 		{Name: "Bidi", In: msg, Out: msg, ClientStream: true, ServerStream: true},
@@ -659,7 +661,7 @@ func c13RunB(o *out, input string) {
 // ---------- C13S ----------
 
 var c13Kinds = []string{"http-json", "http-json-gzip", "http-proto", "http-up-gzip", "http-up", "http-down",
-	"grpc", "grpc-gzip", "grpc-bidi", "grpc-bidi-gzip", "grpc-web", "blob-get", "blob-put", "grpc-cancel", "proxy-unary", "proxy-json"}
+	"grpc", "grpc-gzip", "grpc-bidi", "grpc-bidi-gzip", "grpc-web", "blob-get", "blob-put", "grpc-cancel", "proxy-unary", "proxy-json", "http-path"}
 
 func (e *c13Env) post(path, ct, accept string, body []byte, gz bool) ([]byte, int, error) {
 	if gz {
@@ -869,6 +871,20 @@ func (e *c13Env) one(kind, id string, r *rng) string {
 			b = b[5+n:]
 		}
 		return fmt.Sprintf("%s id=%s no data frame", kind, id)
+	case "http-path":
+		// the message arrives in the URL: two path variables and a query string of varying length
+		q := "message_id=" + strings.Repeat("q", r.intn(3000))
+		rsp, err := e.client.Get(e.lb.url + "/c13/p/u-" + url.PathEscape(id) + "/" + url.PathEscape(t) + "?" + q)
+		if err != nil {
+			return fmt.Sprintf("%s id=%s err %v", kind, id, err)
+		}
+		b, _ := io.ReadAll(rsp.Body)
+		rsp.Body.Close()
+		if rsp.StatusCode != 200 {
+			return fmt.Sprintf("%s id=%s status %d", kind, id, rsp.StatusCode)
+		}
+		got, _ := textOf(b)
+		return diff(got, t)
 	case "blob-get":
 		b, code, err := e.post("/c13/blob", "application/json", "", jsonOf(t), false)
 		if err != nil || code != 200 {
